@@ -385,7 +385,12 @@ typename population<T>::coord pickup(const population<T> &p)
                 [&p, l = 0] () mutable { return p.individuals(l++); });
 
   std::discrete_distribution<unsigned> dd(s.begin(), s.end());
+#if defined(VITA_VERIF)
+  const auto l(random::verif::log_draw<unsigned>('d', 0, s.size(),
+                                                 dd(random::engine)));
+#else
   const auto l(dd(random::engine));
+#endif
   return {l, random::sup(s[l])};
 }
 
